@@ -429,3 +429,28 @@ Fixpoint e2e_total (srcs : list (Z * Z)) : Z :=
   | (k, v) :: r => ((if e2e_accepts k then v else 0) + e2e_total r)%Z
   end.
 Definition e2e_any (srcs : list (Z * Z)) : bool := existsb (fun s => e2e_accepts (fst s)) srcs.
+
+(* ------------------------------------------------------------------------------------------ *)
+(* Part H: the shared UI (internal/driver/options.go stdUI.fprint): every Print/PrintErr is ONE write of
+   the message followed by a newline; the stream is the concatenation of these writes in the order in
+   which the file serialises them.  [lines] reads a stream back into its lines. *)
+Definition nl : ascii := "010"%char.
+Fixpoint ui_stream (ms : list string) : string :=
+  match ms with
+  | [] => EmptyString
+  | m :: r => (m ++ String nl (ui_stream r))%string
+  end.
+Fixpoint lines (s : string) : list string :=
+  match s with
+  | EmptyString => []
+  | String a r => if Ascii.eqb a nl then EmptyString :: lines r
+                  else match lines r with
+                       | [] => [String a EmptyString]
+                       | l :: ls => String a l :: ls
+                       end
+  end.
+Fixpoint no_nl (s : string) : bool :=
+  match s with
+  | EmptyString => true
+  | String a r => negb (Ascii.eqb a nl) && no_nl r
+  end.
